@@ -512,6 +512,9 @@ func relayOp(r *relayInst, fs []string) string {
 		}
 		w.c.SetCloseHandler(func(code int, text string) error { return nil }) // never answers a close frame
 		return "ok"
+	case fs[0] == "prune" && len(fs) == 1:
+		r.ds.Prune() // what relay.go's pruning goroutine does every PruneEvery
+		return "ok"
 	case fs[0] == "settle" && len(fs) == 2:
 		// let the relay's own slow consumers (the stats reporter reads its queue once a second) catch up
 		ms, err := strconv.Atoi(fs[1])
